@@ -38,6 +38,12 @@ class BrownianHooks(Hooks):
             return decide_by_model(interp, test, env, fi, self.ordering)
         return NotImplemented
 
+    def truthy(self, interp, value, node, fi):
+        # the symbol ENTROPY stands for a non-zero user seed; the zero seed is a scenario of its own (R06.1)
+        if isinstance(value, Rat) and nf.equal(value, nf.sym("ENTROPY", True)):
+            return True
+        return NotImplemented
+
     def external_call(self, interp, dotted, args, kwargs, node, fi):
         if dotted == "np.random.SeedSequence":
             self.seedseq_calls.append((dict(kwargs), node, fi))
@@ -118,12 +124,14 @@ def make_top(model, have_H=True, have_A=False, levy="space-time", halfway=False,
     return top, cache
 
 
-def eval_split(model, have_H, is_left, hooks=None):
-    """Child (W, H) of a split as canonical forms in parent (W, H), the two noises and l, r."""
+def eval_split(model, have_H, is_left, hooks=None, halfway=False):
+    """Child (W, H) of a split as canonical forms in parent (W, H), the two noises and l, r.  With `halfway` the top
+    object is in dyadic-tree mode; the stored midpoint is still a general point s + l (it is the *rounded* midpoint, so
+    the two children need not have the same length)."""
     fi = model.func(BI, "_Interval._increment_and_space_time_levy_area")
     hooks = hooks or BrownianHooks()
     it = Interp(model, hooks)
-    top, cache = make_top(model, have_H=have_H)
+    top, cache = make_top(model, have_H=have_H, halfway=halfway)
     s, l, r = nf.sym("s", True), nf.sym("l", True), nf.sym("r", True)
     W, H = nf.sym("W"), nf.sym("H")
     icls = model.cls(BI, "_Interval")
